@@ -149,6 +149,7 @@ C01_CATALOGUE = {
         ("f4@p_break", "f4", [("2ch", ["cas", "cas2"], {("A", "R_BCE", "D"): {"p_break": True}, ("A", "R_BCD", "E"): {"p_break": True}}, None),
                               ("branching", ["br"], {("A", "R_BC", "R_DE"): {"p_break": True}}, None)], False),
         ("f4@shared_vertex", "f4", [("2ch", ["cas2", "cas3"], None, None), ("4ch", None, None, None)], True),
+        ("sid2g", "sid2g", [("1ch", ["br"], None, None), ("2ch", None, None, None)], True),
     ],
 }
 
